@@ -1752,8 +1752,10 @@ def loadArmFromURDF(file_name):
 
                 new_element.xyz_origin = cg_origin_tm
             if child.tag == 'limit':
-                new_element.joint_limits[0] = child.get('lower')
-                new_element.joint_limits[1] = child.get('upper')
+                if child.get('lower') is not None:
+                    new_element.joint_limits[0] = child.get('lower')
+                if child.get('upper') is not None:
+                    new_element.joint_limits[1] = child.get('upper')
                 new_element.max_effort = child.get('effort')
                 new_element.max_velocity = child.get('velocity')
 
